@@ -10,6 +10,7 @@ import (
 	"github.com/zishang520/engine.io/v2/events"
 	"github.com/zishang520/engine.io/v2/log"
 	"github.com/zishang520/engine.io/v2/types"
+	"github.com/zishang520/engine.io/v2/verifhook"
 )
 
 var transport_log = log.NewLog("engine:transport")
@@ -168,6 +169,9 @@ func (t *transport) OnRequest(req *types.HttpContext) {}
 func (t *transport) Close(fn ...types.Callable) {
 	if t.ReadyState() == "closed" || t.ReadyState() == "closing" {
 		return
+	}
+	if verifhook.Enabled {
+		verifhook.Point("transport.Close.window", t._proto_)
 	}
 	t.SetReadyState("closing")
 	fn = append(fn, nil)
